@@ -237,6 +237,24 @@ pub fn cases_c14(cfg: &Cfg) -> Vec<Case> {
 
 fn run_c15<Tr: TreeApi>(rep: &mut Rep, spec: &SeqSpec) {
     let raw = gen_seq(spec, <Tr::Item as Sym>::BITS);
+    // construction history on one thread: the input, then the same symbols with the frequency
+    // profile mirrored (most frequent <-> rarest), then the input again. Each construction must
+    // meet the bounds whatever was built before it.
+    let m0 = SeqModel::new(raw.clone());
+    let mut by_count: Vec<u128> = m0.syms.clone();
+    by_count.sort_by_key(|s| (m0.count(*s), *s));
+    let mirror: std::collections::HashMap<u128, u128> = by_count.iter().copied().zip(by_count.iter().rev().copied()).collect();
+    let mirrored: Vec<u128> = raw.iter().map(|x| mirror[x]).collect();
+    drop(m0);
+    c15_one::<Tr>(rep, spec, raw.clone(), "input");
+    if raw.len() <= 300_000 {
+        c15_one::<Tr>(rep, spec, mirrored, "frequencies mirrored (built right after the input)");
+        c15_one::<Tr>(rep, spec, raw, "input again");
+        rep.gate_add("construction_histories", 1);
+    }
+}
+
+fn c15_one<Tr: TreeApi>(rep: &mut Rep, spec: &SeqSpec, raw: Vec<u128>, step: &'static str) {
     let data: Vec<Tr::Item> = raw.iter().map(|&x| <Tr::Item as Sym>::from_u128(x)).collect();
     let m = SeqModel::new(raw);
     let n = m.len();
@@ -258,7 +276,7 @@ fn run_c15<Tr: TreeApi>(rep: &mut Rep, spec: &SeqSpec) {
     bound_viol(
         rep,
         "level_data_bits<=n(H0+k)",
-        format!("{} n={} sigma={} H0={:.4}", Tr::name(), n, m.syms.len(), h0),
+        format!("{} n={} sigma={} H0={:.4} [{}]", Tr::name(), n, m.syms.len(), h0, step),
         bound,
         level_bits,
         format!("n*(H0+{})", slack),
@@ -268,7 +286,7 @@ fn run_c15<Tr: TreeApi>(rep: &mut Rep, spec: &SeqSpec) {
     bound_viol(
         rep,
         "level_data_bits<=plain",
-        format!("{} n={} max={}", Tr::name(), n, max),
+        format!("{} n={} max={} [{}]", Tr::name(), n, max, step),
         n as f64 * plain_levels,
         level_bits,
         format!("n*{}", plain_levels),
@@ -292,7 +310,7 @@ fn run_c15<Tr: TreeApi>(rep: &mut Rep, spec: &SeqSpec) {
     bound_viol(
         rep,
         "retained_bits",
-        format!("{} n={} sigma={} max={} H0={:.4}", Tr::name(), n, m.syms.len(), max, h0),
+        format!("{} n={} sigma={} max={} H0={:.4} [{}]", Tr::name(), n, m.syms.len(), max, h0, step),
         bound,
         retained as f64 * 8.0,
         format!("(1+{:.4}+{})*n*(H0+{}) + {}B*(max+1) + {}*4KiB", r, eps, slack, per_value_bytes, nl),
@@ -338,6 +356,23 @@ pub fn cases_c15(cfg: &Cfg) -> Vec<Case> {
         (Alpha::Holes { k: 20, max: 1 << 20 }, Dist::Random, "u32"),
         (Alpha::Dense(1000), Dist::Zipf, "u128"),
     ];
+    // large alphabets made mostly of symbols that occur once or twice (Exact weights; n is fixed by
+    // the profile): every symbol once; many singletons + some doubles; singletons + a few heavy symbols
+    let mut singles: Vec<(Vec<u64>, &'static str)> = Vec::new();
+    if cfg.scale != Scale::Tiny {
+        let k = if cfg.scale == Scale::Full { 60_000 } else { 12_000 };
+        singles.push((vec![1u64; k], "u32"));
+        let mut w = vec![1u64; k];
+        w.extend(std::iter::repeat(2u64).take(k / 15));
+        singles.push((w, "u32"));
+        let mut w = vec![1u64; k / 2];
+        w.extend([k as u64, k as u64 / 2, k as u64 / 4, 5000, 300]);
+        singles.push((w, "u64"));
+        singles.push((vec![1u64; 300], "u16"));
+        let mut w = vec![1u64; 200];
+        w.extend(std::iter::repeat(2u64).take(56));
+        singles.push((w, "u8"));
+    }
     for &n in &lens {
         for (pi, (alpha, dist, tname)) in profiles.iter().enumerate() {
             for (ai, alias) in aliases.iter().enumerate() {
@@ -357,6 +392,22 @@ pub fn cases_c15(cfg: &Cfg) -> Vec<Case> {
                     with_tree!(alias, tname, run_c15, rep, &spec);
                 }));
             }
+        }
+    }
+    for (si, (w, tname)) in singles.into_iter().enumerate() {
+        for (ai, alias) in aliases.iter().enumerate() {
+            if cfg.scale != Scale::Full && (si + ai) % 2 != 0 {
+                continue;
+            }
+            let alias: &'static str = alias;
+            let n = w.iter().sum::<u64>() as usize;
+            let spec = SeqSpec { n, alpha: Alpha::Dense(w.len()), dist: Dist::Exact(w.clone()), layout: Layout::Iid, seed: rng.u64() };
+            let ty = format!("{}<{}>", alias, tname);
+            let class = format!("{}|singletons{}", ty, si);
+            let desc = J::obj().set("spec", spec.to_json()).set("profile", "mostly symbols occurring once or twice");
+            out.push(Case::new(ty, class, desc, n as u64 * 10 + 500, move |rep: &mut Rep| {
+                with_tree!(alias, tname, run_c15, rep, &spec);
+            }));
         }
     }
     // deep tie-free profiles (exact weights)
